@@ -3,7 +3,6 @@ package lhsim
 import (
 	"context"
 	"fmt"
-	"testing/synctest"
 	"time"
 
 	"github.com/orbs-network/lean-helix-go/services/interfaces"
@@ -67,6 +66,14 @@ func genRTConfig(ch *Chooser, prop, tier string, disabled map[string]bool) *RunC
 	cfg.NoisePm = []int{0, 0, 30, 100}[ch.Pick("r-noise", 4)]
 	cfg.BurstPm = []int{0, 0, 0, 20}[ch.Pick("r-burst", 4)]
 	cfg.LogYieldPm = []int{0, 30, 100}[ch.Pick("r-logyield", 3)]
+	cfg.YieldPm = []int{0, 30, 100}[ch.Pick("r-yield", 3)]
+	// in some runs every correct node has a slow / failing consumer (blocking SPI calls), not only the focus node;
+	// all workers then run under select control (H1)
+	cfg.TimeoutBlockedPm = []int{0, 40, 150}[ch.Pick("r-timeout-blocked", 3)]
+	cfg.AllGated = prop != "C16" && ch.Pick("all-gated", 4) == 3
+	if cfg.AllGated {
+		cfg.WorkerControl = true
+	}
 	cfg.CrashPm = 0 // the focus node is never crashed by the generic fault; cancellation is an explicit action
 	if prop == "C16" {
 		cfg.CancelAt = cancelAt
@@ -122,6 +129,16 @@ func RunRT(w *World) {
 	f.gatePolicy = w.focusGatePolicy(f)
 	f.lateResultPm = w.cfg.LateResultPm
 	f.simLogger = w.cfg.LogYieldPm > 0
+	if w.cfg.YieldPm > 0 {
+		w.enableYields()
+	}
+	if w.cfg.AllGated {
+		for _, n := range w.honest() {
+			if n != f {
+				n.gatePolicy = w.focusGatePolicy(n)
+			}
+		}
+	}
 	for _, n := range w.honest() {
 		w.startNode(n)
 	}
@@ -180,9 +197,23 @@ func (w *World) rtStep(f *Node) bool {
 	}
 	switch {
 	case band(cfg.ReleasePm):
-		if len(f.gates) == 0 {
+		t := f
+		if cfg.AllGated {
+			var with []*Node
+			for _, n := range w.honest() {
+				if n.alive && len(n.gates) > 0 {
+					with = append(with, n)
+				}
+			}
+			if len(with) == 0 {
+				return false
+			}
+			t = with[w.ch.Pick("gate-node", len(with))]
+		}
+		if len(t.gates) == 0 {
 			return false
 		}
+		f := t
 		g := f.gates[w.ch.Pick("which-gate", len(f.gates))]
 		v := GatePass
 		if g.kind != "propose" && g.kind != "newround" && w.ch.Pick("release-fail", 4) == 3 {
@@ -211,6 +242,31 @@ func (w *World) rtStep(f *Node) bool {
 		return w.noiseInto(f)
 	case band(cfg.BurstPm):
 		return w.burstInto(f)
+	case band(cfg.YieldPm):
+		return w.preemptStep(f)
+	case band(cfg.TimeoutBlockedPm):
+		// the election timeout of a node expires while its worker is inside a consumer call (legal: a slow consumer)
+		var cands []*Node
+		for _, n := range w.honest() {
+			if !n.alive || (n != f && !cfg.AllGated) || n.trig == nil || n.trig.cur == nil || n.trig.cur.fired {
+				continue
+			}
+			for _, g := range n.gates {
+				if g.kind != "log" && g.kind != "yield" && g.height == n.trig.cur.h {
+					cands = append(cands, n)
+					break
+				}
+			}
+		}
+		if len(cands) == 0 {
+			return false
+		}
+		n := cands[w.ch.Pick("timeout-blocked-node", len(cands))]
+		w.action("timeout-while-spi-blocked")
+		w.stats.Fault("timer-early")
+		w.probe("timeout-while-spi-blocked")
+		w.fireTimer(n, n.trig.cur, "timer-fire(early, consumer call in progress)")
+		return true
 	case band(cfg.LogYieldPm):
 		if f.logYieldIn > 0 || !f.simLogger {
 			return false
@@ -238,11 +294,12 @@ func (w *World) burstInto(f *Node) bool {
 	w.action("burst")
 	w.stats.Fault("overflow")
 	w.ev("burst of 1100 messages into n%d while its worker is busy", f.idx)
+	f.obs.delivered = append(f.obs.delivered, &DeliveredRec{seq: w.seq, step: w.step, raw: src.raw, msg: src.msg, origin: src.from, honest: true, sent: src, tag: "burst", epoch: f.epoch})
 	lh, ctx := f.lh, f.ctx
 	for i := 0; i < 1100 && w.viol == nil; i++ {
 		done := make(chan struct{})
 		go func() { lh.HandleConsensusMessage(ctx, src.raw); close(done) }()
-		synctest.Wait()
+		simWait()
 		select {
 		case <-done:
 		default:
@@ -372,6 +429,15 @@ func (w *World) cancelFocus(f *Node) {
 	if f.ctrl != nil && (f.ctrl.pendingNow().Messages > 0 || f.ctrl.pendingNow().Election || f.ctrl.pendingNow().Sync) {
 		w.probe("cancel-with-pending-worker-events")
 	}
+	// the run ends with this cancellation: the other nodes are stopped first, so that the simulated time that passes
+	// below belongs to the cancelled node alone (another node's real election timer expiring meanwhile would be an
+	// event nobody models)
+	for _, n := range w.honest() {
+		if n != f && n.alive {
+			w.stopNode(n)
+		}
+	}
+	simWait()
 	f.shuttingDown = true
 	sends0, commits0, rounds0, regs0 := len(f.obs.sends), len(f.obs.commits), len(f.obs.newRounds), len(f.obs.registrations)
 	done := make(chan struct{})
@@ -387,7 +453,7 @@ func (w *World) cancelFocus(f *Node) {
 	// timer, let the timer expire first - its goroutine then finds nobody reading the election channel - and only
 	// then let the worker return and dispose of its term.
 	if f.realTrig != nil && f.realTrig.armed && w.ch.Pick("cancel-slow-consumer", 2) == 1 {
-		synctest.Wait()
+		simWait()
 		slow := false
 		for _, g := range f.gates {
 			if g.ignoresCtx {
@@ -399,12 +465,12 @@ func (w *World) cancelFocus(f *Node) {
 			w.stats.Fault("shutdown-slow-consumer")
 			w.ev("slow consumer: %v pass before its calls return (the election timer expires meanwhile)", d)
 			w.sleep(d)
-			synctest.Wait()
+			simWait()
 			w.probe("timer-expired-during-shutdown")
 		}
 	}
 	w.drainNode(f)
-	synctest.Wait()
+	simWait()
 	select {
 	case <-done:
 	default:
@@ -430,14 +496,14 @@ func (w *World) cancelFocus(f *Node) {
 	ctx := f.ctx
 	go func() { lh.HandleConsensusMessage(ctx, &interfaces.ConsensusRawMessage{Content: []byte{1, 2, 3}}); ret <- 1 }()
 	go func() { _ = lh.UpdateState(ctx, nil, nil); ret <- 2 }()
-	synctest.Wait()
+	simWait()
 	if len(ret) != 2 {
 		w.violate("C16", "api-blocks-after-cancel", "HandleConsensusMessage / UpdateState called with the cancelled context did not return (%d of 2 returned)", len(ret))
 		return
 	}
 	// hours of fake time: the election timer must be stopped, nothing may fire
 	w.sleep(72 * time.Hour)
-	synctest.Wait()
+	simWait()
 	w.harnessClock()
 	if f.trig != nil && f.trig.cur != nil && !f.trig.cur.stale {
 		w.violate("C16", "timer-not-stopped", "the election scheduler of n%d is still armed for (h%d,v%d) after shutdown", f.idx, f.trig.cur.h, f.trig.cur.v)
@@ -663,3 +729,50 @@ func (w *World) fireAny(e *pendingEvent) {
 }
 
 var _ = fmt.Sprint
+
+// preemptStep: either arm a preemption of the focus node's worker at one of its next synchronisation points, or let a
+// consumer thread read State().HeightView() while the loops run, possibly preempted inside that call.
+func (w *World) preemptStep(f *Node) bool {
+	if !w.ys.enabled || w.ys.arm != nil {
+		return false
+	}
+	switch w.ch.Pick("preempt-kind", 3) {
+	case 0, 1:
+		n := 1 + w.ch.Pick("yield-in", 6)
+		if w.ch.Pick("yield-far", 3) == 2 {
+			n = 1 + w.ch.Pick("yield-in-far", 80)
+		}
+		w.action("arm-yield")
+		w.armYield(f, "worker", n, "")
+		return true
+	default:
+		return w.apiSample(f)
+	}
+}
+
+func (w *World) apiSample(f *Node) bool {
+	if !f.alive || f.lh == nil {
+		return false
+	}
+	w.action("api-sample")
+	rec := &sampleRec{pre: f.hv(), epoch: f.epoch, step: w.step}
+	f.samples = append(f.samples, rec)
+	preempt := w.ch.Pick("sample-preempt", 3)
+	if preempt > 0 {
+		w.armYield(f, "api", preempt, "")
+	}
+	lh := f.lh
+	w.ev("api-sample n%d starts at %v", f.idx, rec.pre)
+	go func() {
+		w.noteGoroutine(f, "api")
+		x := lh.State().HeightView()
+		rec.val = hv{uint64(x.Height()), uint64(x.View())}
+		rec.done = true
+		w.ev("api-sample n%d -> %v", f.idx, rec.val)
+	}()
+	w.quiesce()
+	if a := w.ys.arm; a != nil && a.role == "api" {
+		w.ys.arm = nil // the call had fewer synchronisation points than asked for
+	}
+	return true
+}
